@@ -3,8 +3,11 @@ package main
 import (
 	"errors"
 	"fmt"
+	"os"
+	"path/filepath"
 	"regexp"
 	"sort"
+	"strconv"
 	"strings"
 
 	"github.com/semihalev/twig"
@@ -379,6 +382,7 @@ func c11Appears(res *Result) {
 func runC11(cases string, res *Result) {
 	c11Appears(res)
 	c11Replaced(res)
+	c11Unreadable(cases, res)
 	readCases(cases, func(c Case) {
 		stream := c.str("stream")
 		res.Hist["stream:"+stream]++
@@ -504,4 +508,42 @@ func runC11(cases string, res *Result) {
 			}
 		}
 	})
+}
+
+// c11Unreadable: `ignore missing` is about templates that do not exist. An entry that exists and cannot be read (here:
+// a directory where the file should be, which no file mode changes) is "every other failure": reported, and not as
+// a missing template.
+func c11Unreadable(cases string, res *Result) {
+	root := filepath.Join(filepath.Dir(cases), "c11fs")
+	os.RemoveAll(root)
+	defer os.RemoveAll(root)
+	second := filepath.Join(root, "second")
+	os.MkdirAll(filepath.Join(root, "first", "part.twig"), 0o755) // a directory named like the template
+	os.MkdirAll(second, 0o755)
+	os.WriteFile(filepath.Join(root, "first", "main.twig"), []byte("a[{% include 'part.twig' ignore missing %}]b"), 0o644)
+	os.WriteFile(filepath.Join(root, "first", "plain.twig"), []byte("a[{% include 'part.twig' %}]b"), 0o644)
+	os.WriteFile(filepath.Join(root, "first", "gone.twig"), []byte("a[{% include 'nothere.twig' ignore missing %}]b"), 0o644)
+	for _, paths := range [][]string{{filepath.Join(root, "first")}, {filepath.Join(root, "first"), second}} {
+		eng := twig.New()
+		eng.RegisterLoader(twig.NewFileSystemLoader(paths))
+		for _, name := range []string{"main.twig", "plain.twig"} {
+			c := Case{"stream": "c11-unreadable", "template": name, "search paths": len(paths)}
+			res.Hist["stream:c11-unreadable"]++
+			res.Evaluations++
+			out, err := eng.Render(name, map[string]interface{}{})
+			switch {
+			case err == nil:
+				res.add(Finding{Kind: "oracle", Where: "c11-unreadable/" + name, Case: c, Expected: "an error: the included entry exists and cannot be read", Observed: "output " + strconv.Quote(out),
+					Detail: "a template that exists but cannot be read was turned into empty output"})
+			case errors.Is(err, twig.ErrTemplateNotFound) && name == "main.twig":
+				res.add(Finding{Kind: "oracle", Where: "c11-unreadable/" + name, Case: c, Expected: "an error other than template-not-found", Observed: err.Error(),
+					Detail: "a template that exists but cannot be read is reported as missing (which ignore missing would then hide)"})
+			}
+		}
+		res.Evaluations++
+		if out, err := eng.Render("gone.twig", map[string]interface{}{}); err != nil || out != "a[]b" {
+			res.add(Finding{Kind: "oracle", Where: "c11-unreadable/gone.twig", Case: Case{"stream": "c11-unreadable", "template": "gone.twig"}, Expected: "a[]b",
+				Observed: fmt.Sprintf("%q err=%v", out, err), Detail: "a template that does not exist under ignore missing"})
+		}
+	}
 }
